@@ -608,11 +608,16 @@ def nofilter(F, res):
             if c in F.fns and F.fns[c]["crate"] == "tx3_cardano" and c.startswith(tbp.rsplit("::", 1)[0] + "::") and not _reads_adhoc(F, F.fns[c]):
                 names.setdefault(c, c.split("::")[-1])
     for fld, hist in (("inputs", "compile_inputs"), ("outputs", "compile_outputs"), ("mint", "compile_mint_block"), ("required_signers", "compile_required_signers")):
-        names[roles.feeder_of(F, tbp, "::TransactionBody", fld)] = hist
-    txp = roles.builder_of(F, "tx3_cardano", "::Tx")
-    names[roles.feeder_of(F, txp, "::Tx", "auxiliary_data")] = "compile_auxiliary_data"
+        try:
+            names[roles.feeder_of(F, tbp, "::TransactionBody", fld)] = hist
+        except BrokenCheck:
+            pass    # the field is not fed by a function any more: USE / ATTRIB report that
+    try:
+        names[roles.feeder_of(F, roles.builder_of(F, "tx3_cardano", "::Tx"), "::Tx", "auxiliary_data")] = "compile_auxiliary_data"
+    except BrokenCheck:
+        pass
     res.count("body-assembling functions", len(names))
-    res.floor("body-assembling functions", len(names), 8)
+    res.floor("body-assembling functions", len(names), 6)
     n = 0
     for fp, name in sorted(names.items()):
         f = F.fns[fp]
